@@ -5,6 +5,11 @@ atomic call on one cache:
            suspended while inner calls store, evict and count);
   twin   - two instances of one decorator (two caches) over ONE on-disk archive, used alternately in one process;
   unser  - an eviction victim that the archive cannot serialise: the failing write-back must not damage what is archived.
+  names  - text arguments whose archive file names are close relatives (composed / decomposed accents, compatibility characters, a common
+           prefix longer than a file name, trailing blank / dot, letter case) over a dir_archive, small cache, two sessions: every
+           call returns its own result.
+  chdir  - the archive is opened by a RELATIVE name and the program changes its current directory while the function is in use: nothing
+           that reached the archive is evaluated again, no second store appears, a pickled handle still addresses the same store.
   reuse  - ONE decorator object applied to two functions (`memo = lru_cache(maxsize=3); f = memo(f0); g = memo(g0)`): each
            function's results are its own, each has its own account in info(), clear() of one leaves the other's counters.
 
@@ -21,6 +26,10 @@ RULE = ('monitor-only scenarios outside the atomic-call model: (recur) recursive
         '(twin) two decorator instances alternating on one file/dir/sqlite archive, (unser) an unserialisable eviction victim, (reuse) one decorator object applied to two functions; '
         'non-trivial = every scenario (each has nested calls, shared storage or a failing write-back)')
 ALGOS = ['lru', 'lfu', 'mru', 'rr', 'inf', 'no']
+
+
+NAME_ARGS = ['caf\u00e9', 'cafe\u0301', '\u00c5ngstr\u00f6m', 'A\u030angstro\u0308m', 'P' * 300 + 'x', 'P' * 300 + 'y', 'P' * 252 + 'q', 'P' * 252 + 'r',
+             'name ', 'name', 'name.', 'Name', '\u212b', '\u00c5']
 
 
 def ref_fib(n, memo={}):
@@ -42,10 +51,22 @@ def gen(tier, idx):
     r = rng('multi', tier, idx)
     scen = ['recur', 'recur', 'twin', 'unser'][idx % 4]
     if idx % 8 == 1: scen = 'reuse'
+    if idx % 8 == 5: scen = 'names'
+    if idx % 8 == 3: scen = 'chdir'
     algo = ALGOS[(idx // 4) % 6]; safe = (idx // 24) % 2 == 1
     cfg = dict(scen=scen, algo=algo, safe=safe, seed=r.randrange(10 ** 6), maxsize=r.choice([1, 2, 3, 3, 5]), purge=r.random() < 0.35)
     if scen == 'reuse': cfg.update(algo=ALGOS[(idx // 8) % 6], safe=(idx // 48) % 2 == 1)
-    if scen == 'recur':
+    if scen == 'names':
+        # text arguments whose file names are close relatives: composed / decomposed accents, a long common prefix beyond what a file
+        # name can hold, trailing blanks and dots, letter case - over a dir_archive (one directory per key), small cache, two sessions
+        cfg.update(algo=['lru', 'lfu', 'mru', 'rr', 'no'][(idx // 8) % 5], safe=(idx // 40) % 2 == 1, arch='dir', purge=False, maxsize=r.choice([1, 2]),
+                   keymap=['string', 'raw', 'stringr'][(idx // 8) % 3], calls=[r.randrange(len(NAME_ARGS)) for _ in range(24)])
+    if scen == 'names': pass
+    elif scen == 'chdir':
+        # the archive is named RELATIVE to the current directory, and the program changes directory while the function is in use
+        cfg.update(algo=['lru', 'lfu', 'mru', 'rr', 'inf', 'no'][(idx // 8) % 6], safe=(idx // 48) % 2 == 1, purge=(idx // 96) % 2 == 1, maxsize=r.choice([1, 2, 3]),
+                   arch=['file', 'filejson', 'filesrc', 'dir', 'sql'][(idx // 8) % 5], calls=[r.randrange(6) for _ in range(16)], calls2=[r.randrange(6) for _ in range(16)])
+    elif scen == 'recur':
         cfg.update(arch=r.choice(['none', 'dict', 'dict', 'file']), tops=[r.randrange(6, 15) for _ in range(r.choice([2, 3, 4]))])
     elif scen == 'reuse':
         # the two functions are called on disjoint arguments first (their accounts must be separate whatever else is shared),
@@ -139,6 +160,59 @@ def run_case(cfg):
                     if stats(0) != keep:
                         bad('C15', 'reused-decorator-clear-resets-the-other-function', 'g.clear(keepstats=%r) moved the counters of f from %r to %r' % (cfg['keepstats'], keep, stats(0)))
                     if not cfg['keepstats'] and done[1] is not None: done[1] = 0
+        elif cfg['scen'] == 'chdir':
+            import klepto.archives as ka, dill
+            os.makedirs(os.path.join(tmp, 'work')); os.makedirs(os.path.join(tmp, 'elsewhere'))
+            os.chdir(os.path.join(tmp, 'work'))
+            def mk():
+                k_ = cfg['arch']
+                if k_ == 'file': return ka.file_archive('memo.pkl', cached=False)
+                if k_ == 'filejson': return ka.file_archive('memo.json', cached=False, protocol='json')
+                if k_ == 'filesrc': return ka.file_archive('memo.py', cached=False, serialized=False)
+                if k_ == 'dir': return ka.dir_archive('memo', cached=False)
+                return ka.sqltable_archive('sqlite:///memo.db', cached=False)
+            evals = []
+            def g(x): evals.append(x); return 'v%d' % x
+            f = D(**dkw(cfg, kcache(archive=mk())))(g)
+            for x in cfg['calls']:
+                if f(x) != 'v%d' % x: bad('C01', 'chdir-wrong-result', 'g(%d) wrong before the directory change' % x)
+            f.dump()
+            pick = dill.dumps(f.__cache__().archive) if cfg['arch'] != 'sql' else None      # (a sqlite3 connection does not pickle)
+            os.chdir(os.path.join(tmp, 'elsewhere'))
+            n0 = len(evals)
+            for x in cfg['calls2']:
+                if f(x) != 'v%d' % x: bad('C01', 'chdir-wrong-result', 'g(%d) wrong after the directory change' % x)
+            f.dump()
+            again = sorted(set(x for x in evals[n0:] if x in evals[:n0]))
+            if again and cfg['algo'] != 'no' or (cfg['algo'] == 'no' and again):
+                bad('C02', 'chdir-re-evaluation', 'after os.chdir() the arguments %r, whose results had reached the %s archive opened as a relative name, were evaluated again' % (again, cfg['arch']), arch=cfg['arch'])
+            stray = sorted(os.listdir(os.path.join(tmp, 'elsewhere')))
+            if stray: bad('C04', 'chdir-second-store', 'after os.chdir() the handle wrote to a second store %r in the new current directory' % stray, arch=cfg['arch'])
+            # a handle unpickled in the new directory addresses the store it was pickled from
+            try:
+                h = dill.loads(pick) if pick is not None else f.__cache__().archive
+                want = dict(f.__cache__().archive.items()); os.chdir(os.path.join(tmp, 'work')); ref_ = dict(mk().items()); os.chdir(os.path.join(tmp, 'elsewhere'))
+                if dict(h.items()) != ref_ or want != ref_:
+                    bad('C04', 'chdir-unpickled-handle-other-store', 'a %s handle opened by a relative name, pickled, and unpickled after os.chdir() reads %d entries, the store holds %d (the live handle reads %d)' % (
+                        cfg['arch'], len(dict(h.items())), len(ref_), len(want)), arch=cfg['arch'])
+            except Exception as e:
+                bad('C04', 'chdir-unpickle-raises', '%s: %s' % (type(e).__name__, str(e)[:80]), arch=cfg['arch'])
+        elif cfg['scen'] == 'names':
+            from klepto.keymaps import stringmap, keymap
+            km = dict(string=lambda: stringmap(), raw=lambda: keymap(), stringr=lambda: stringmap(encoding='repr'))[cfg['keymap']]
+            def h(s): return ('v', s)
+            def session(tag):
+                kw = dict(keymap=km(), cache=kcache(archive=make_archive('dir', tmp, 'names')))
+                if cfg['algo'] != 'no': kw.update(maxsize=cfg['maxsize'], purge=False)
+                f = D(**kw)(h)
+                for i in cfg['calls']:
+                    try: got = f(NAME_ARGS[i])
+                    except Exception as e:
+                        bad('C01', 'names-call-raises', '%s session: h(%.30r...) raised %s: %s' % (tag, NAME_ARGS[i], type(e).__name__, str(e)[:60]), exc=type(e).__name__); return
+                    if got != ('v', NAME_ARGS[i]):
+                        bad('C01', 'names-wrong-result', '%s session: h(%.40r) [%d characters] returned the result of h(%.40r) [%d characters]: two arguments share one archive entry' % (
+                            tag, NAME_ARGS[i], len(NAME_ARGS[i]), got[1], len(got[1]))); return
+            session('first'); session('second')
         elif cfg['scen'] == 'twin':
             evals = []
             def g(x): evals.append(x); return 'v%d' % x
@@ -224,7 +298,7 @@ def explore(prop, tier, offset=0):
         tags[o['cfg']['scen']] += 1; tags['algo=' + o['cfg']['algo']] += 1
         for v in o['viol']:
             if v['prop'] == prop: viols.append(dict(v, i=0, cfg=o['cfg'], ops=[]))
-    n = sum(tags[s] for s in ('recur', 'twin', 'unser', 'reuse'))
+    n = sum(tags[s] for s in ('recur', 'twin', 'unser', 'reuse', 'names', 'chdir'))
     # the recursive traces against the model (flat history of completions)
     import run_wrapper as rw
     trs = [o['trace'] for o in res if o.get('trace') is not None]
@@ -237,7 +311,7 @@ def explore(prop, tier, offset=0):
     tags['recursive-trace'] = len(rt); tags['recursive-completions'] = sum(len(t['recs']) for t in rt); tags['evictions-in-model-traces'] = wtags.get('evict', 0)
     tags['twin-trace'] = len(tt); tags['twin-external-writes'] = sum(1 for t in tt for x in t['recs'] if x['op'][0] == 'extput')
     return dict(suite='multi', traces=n + len(trs), evaluations=n + sum(len(t['recs']) for t in trs), distinct_nontrivial=n, tags=dict(tags), divergences=divs, violations=viols, samples=[res[0]['cfg'], res[2]['cfg']],
-                errors=errors[:3], rule=RULE, required_tags=['recur', 'twin', 'unser', 'reuse', 'recursive-trace', 'twin-trace'], config_histogram=None)
+                errors=errors[:3], rule=RULE, required_tags=['recur', 'twin', 'unser', 'reuse', 'names', 'chdir', 'recursive-trace', 'twin-trace'], config_histogram=None)
 
 
 def replay(prop, obj):
